@@ -27,3 +27,18 @@ func (s *Syncer[H]) VerifSyncStoreHead() uint64 {
 	}
 	return 0
 }
+
+// VerifPendingHashes returns the hashes of all headers held in the pending ranges.
+func (s *Syncer[H]) VerifPendingHashes() []string {
+	s.pending.lk.RLock()
+	defer s.pending.lk.RUnlock()
+	var out []string
+	for _, r := range s.pending.ranges {
+		r.lk.RLock()
+		for _, h := range r.headers {
+			out = append(out, h.Hash().String())
+		}
+		r.lk.RUnlock()
+	}
+	return out
+}
